@@ -94,7 +94,7 @@ pub fn check(case: &Case, idx: u64, acc: &mut Acc) {
 }
 
 pub fn cases(tier: Tier) -> Vec<Case> {
-    let kmax = tier.pick(5, 6);
+    let kmax = tier.pick(6, 7);
     let mut out = vec![];
     for k in 1..=kmax {
         for interior in interior_configs(k) {
@@ -111,7 +111,7 @@ pub fn run(ctx: &Ctx, replay_file: Option<String>) -> ! {
     let cs = cases(ctx.tier);
     let acc = explore(&cs, check);
     let meta = Meta::exploration(
-        "order k = 1..5 (6); knot vector = k-fold end knots at 0 and 4 plus EVERY subset of the interior positions \
+        "order k = 1..6 (7); knot vector = k-fold end knots at 0 and 4 plus EVERY subset of the interior positions \
          {1, 1.5, 3} with EVERY multiplicity vector in 1..k-1 per interior knot; every basis index; every derivative \
          order m = 0..k+1; evaluation at every break point (both end points included) and at the 1/4, 1/2, 3/4 points \
          of every span (all exactly representable). Oracle: exact rational Cox-de Boor model (polynomial pieces with \
@@ -119,7 +119,7 @@ pub fn run(ctx: &Ctx, replay_file: Option<String>) -> ! {
          with no tolerance, exactly 0 outside [t_i, t_{i+k}], sum = 1 to 1e-12, m-th derivative equal to the model's, \
          exactly 0 for m >= k. The model itself is checked to be a partition of unity at every point. Non-trivial: \
          evaluations exactly at a knot where the function is non-zero.",
-        json!({"max_order": ctx.tier.pick(5, 6), "knot_vectors": cs.len()}),
+        json!({"max_order": ctx.tier.pick(6, 7), "knot_vectors": cs.len()}),
     )
     .assume("knots on the grid {0,1,1.5,3,4}: uneven spacing, but values outside this grid are not enumerated");
     finish(ctx, acc, meta)
